@@ -203,16 +203,49 @@ class Model:
 class Interp:
     """Path-enumerating abstract interpreter for the cache methods (loops are unrolled 0/1 times)."""
 
+    MUTATORS = ("pop", "remove", "append", "clear", "update", "setdefault", "insert", "extend", "popitem", "__setitem__", "__delitem__", "sort", "reverse")
+
     def __init__(self, model: Model, fn: FuncInfo, keyname: str | None) -> None:
         self.model = model
         self.fn = fn
         self.key = keyname
         self.unmodelled: list[str] = []
+        # locals that are plain names for a container (`queue = self._cache_queue`), in the method and its helpers
+        self.cont_alias: dict[str, str] = {}
+        for f in [fn, *model.helpers.values()]:
+            for a in walk_no_nested(f.node):
+                if isinstance(a, ast.Assign) and len(a.targets) == 1 and isinstance(a.targets[0], ast.Name) and _self_attr(a.value) in model.conts:
+                    name = a.targets[0].id
+                    if self.cont_alias.get(name, _self_attr(a.value)) != _self_attr(a.value):
+                        self.unmodelled.append(f"`{name}` names two containers")
+                    self.cont_alias[name] = _self_attr(a.value)  # type: ignore[assignment]
+        for f in [fn, *model.helpers.values()]:
+            for a in walk_no_nested(f.node):
+                tg = a.targets if isinstance(a, ast.Assign) else ([a.target] if isinstance(a, (ast.AugAssign, ast.AnnAssign)) else [])
+                for t in tg:
+                    if isinstance(t, ast.Name) and t.id in self.cont_alias and not (isinstance(a, ast.Assign) and _self_attr(a.value) == self.cont_alias[t.id]):
+                        self.unmodelled.append(f"`{t.id}` is rebound")
 
     # -- expression helpers
     def _cont(self, node: ast.AST) -> str | None:
         a = _self_attr(node)
-        return a if a in self.model.conts else None
+        if a in self.model.conts:
+            return a
+        if isinstance(node, ast.Name) and node.id in self.cont_alias:
+            return self.cont_alias[node.id]
+        return None
+
+    def _helper_mutates(self, h: FuncInfo, seen: frozenset = frozenset()) -> bool:
+        """The helper (or a helper it calls) changes one of the containers."""
+        for x in walk_no_nested(h.node):
+            if isinstance(x, ast.Call) and isinstance(x.func, ast.Attribute) and self._cont(x.func.value) and x.func.attr in self.MUTATORS:
+                return True
+            if isinstance(x, (ast.Subscript,)) and self._cont(x.value) and isinstance(x.ctx, (ast.Store, ast.Del)):
+                return True
+            if isinstance(x, ast.Call) and _self_attr(x.func) in self.model.helpers and _self_attr(x.func) not in seen and _self_attr(x.func) != h.name:
+                if self._helper_mutates(self.model.helpers[_self_attr(x.func)], seen | {h.name}):  # type: ignore[index]
+                    return True
+        return False
 
     def _keyname(self, node: ast.AST, st: St) -> str | None:
         if isinstance(node, ast.Name):
@@ -316,6 +349,8 @@ class Interp:
                     self.unmodelled.append(norm(stmt))
                     return [st], []
                 return [self._add(st, k, self._cont(t.value))], []  # type: ignore[arg-type]
+            if isinstance(t, ast.Name) and t.id in self.cont_alias and _self_attr(v) == self.cont_alias[t.id]:
+                return [st], []
             if isinstance(t, ast.Name):
                 # x = self.queue.pop(0)  /  x = min(scores, ...)  -> policy-selected key
                 if isinstance(v, ast.Call) and isinstance(v.func, ast.Attribute) and v.func.attr == "pop" and self._cont(v.func.value) == self.model.queue and self.model.queue:
@@ -372,17 +407,50 @@ class Interp:
                 # self._helper() -> inline
                 h = _self_attr(call.func)
                 if h and h in self.model.helpers:
-                    f, r = self.run_block(self.model.helpers[h].node.body, [st])
+                    import copy
+
+                    from .c15 import _Rename
+
+                    hf = self.model.helpers[h]
+                    ps = [p for p in hf.param_names() if p != "self"]
+                    mapping = {}
+                    for i, a in enumerate(call.args):
+                        if i < len(ps) and isinstance(a, ast.Name):
+                            mapping[ps[i]] = a.id
+                        elif i < len(ps) and self._helper_mutates(hf):
+                            self.unmodelled.append(norm(stmt))
+                            return [st], []
+                    for k in call.keywords:
+                        if k.arg in ps and isinstance(k.value, ast.Name):
+                            mapping[k.arg] = k.value.id
+                    self._depth = getattr(self, "_depth", 0) + 1
+                    if self._depth > 4:
+                        self.unmodelled.append(f"helper nesting at {norm(stmt)}")
+                        self._depth -= 1
+                        return [st], []
+                    body = [_Rename(mapping).visit(copy.deepcopy(b)) for b in hf.node.body] if mapping else hf.node.body
+                    f, r = self.run_block(body, [st])
+                    self._depth -= 1
                     return _dedup(f + r), []
         # any other statement: look for reads that could raise, and for unmodelled mutations
         for part in header_parts(stmt):
             self._scan_expr(part, st)
         return [st], []
 
+    READERS = ("len", "min", "max", "sorted", "list", "tuple", "iter", "sum", "print", "str", "repr", "bool", "any", "all", "dict", "set", "enumerate")
+
     def _scan_expr(self, node: ast.AST, st: St) -> None:
+        """Anything that reaches this point is not interpreted: it must not change (or leak) a container."""
         for x in ast.walk(node):
-            if isinstance(x, ast.Call) and isinstance(x.func, ast.Attribute) and self._cont(x.func.value) and x.func.attr in ("update", "setdefault", "insert", "extend", "popitem"):
+            if isinstance(x, ast.Call) and isinstance(x.func, ast.Attribute) and self._cont(x.func.value) and x.func.attr in self.MUTATORS:
                 self.unmodelled.append(norm(x))
+            if isinstance(x, ast.Subscript) and self._cont(x.value) and isinstance(x.ctx, (ast.Store, ast.Del)):
+                self.unmodelled.append(norm(x))
+            if isinstance(x, ast.Call) and _self_attr(x.func) in self.model.helpers and self._helper_mutates(self.model.helpers[_self_attr(x.func)]):  # type: ignore[index]
+                self.unmodelled.append(norm(x))
+            if isinstance(x, ast.Call) and dotted(x.func) not in self.READERS and not (isinstance(x.func, ast.Attribute) and self._cont(x.func.value)):
+                if any(self._cont(a) for a in [*x.args, *[k.value for k in x.keywords]]):
+                    self.unmodelled.append(norm(x))
 
     def _clear_loop(self, stmt: ast.For) -> str | None:
         # for k in <keys of X>: del self.X[k]
@@ -489,7 +557,7 @@ def rule_invariant(ctx: Ctx) -> None:
         cls = ctx.prog.cls(f"{MOD}.{cname}")
         queue = "_cache_queue" if "_cache_queue" in fields else None
         model = Model(cname, "_cache_dict", fields, queue)
-        model.helpers = {n: f for n, f in cls.methods.items() if n.startswith("_") and not n.startswith("__") and _accesses(f, fields)}
+        model.helpers = {n: f for n, f in cls.methods.items() if n.startswith("_") and not n.startswith("__") and not f.is_property}
         for mname in ("put", "get", "clear", "__contains__", "__len__"):
             fn = cls.methods[mname]
             params = [p for p in fn.param_names() if p != "self"]
@@ -520,7 +588,7 @@ def rule_invariant(ctx: Ctx) -> None:
                 total += 1
                 if it.unmodelled:
                     ctx.note(f"{fn.qualname}: unmodelled container operation(s) {sorted(set(it.unmodelled))}; invariant not decided for this method")
-                    ctx.add("2-invariant", fn, fn.node, True, f"[{label}] skipped: unmodelled operation {sorted(set(it.unmodelled))[0]}", key=f"def {mname} [{label}] unmodelled")
+                    ctx.add("2-invariant", fn, fn.node, None, f"UNDECIDED: [{label}] the method uses an operation this interpreter does not model: {sorted(set(it.unmodelled))[0][:80]}", key=f"def {mname} [{label}]")
                     continue
                 bad: list[str] = []
                 for s in finals:
@@ -548,7 +616,15 @@ def rule_invariant(ctx: Ctx) -> None:
 
 # ------------------------------------------------------------------------------ rule 3
 def _queue_calls(sc: Scope, cont: str, *meths: str) -> list[ast.Call]:
-    return [n for _f, n in sc.walk() if isinstance(n, ast.Call) and isinstance(n.func, ast.Attribute) and n.func.attr in meths and _self_attr(n.func.value) == cont]
+    def names_cont(f: FuncInfo, e: ast.AST) -> bool:
+        if _self_attr(e) == cont:
+            return True
+        if isinstance(e, ast.Name):  # a local that is bound once, to the container itself
+            binds = [a for a in walk_no_nested(f.node) if isinstance(a, (ast.Assign, ast.AnnAssign, ast.AugAssign)) and any(isinstance(t, ast.Name) and t.id == e.id for t in (a.targets if isinstance(a, ast.Assign) else [a.target]))]
+            return len(binds) == 1 and isinstance(binds[0], ast.Assign) and _self_attr(binds[0].value) == cont
+        return False
+
+    return [n for f, n in sc.walk() if isinstance(n, ast.Call) and isinstance(n.func, ast.Attribute) and n.func.attr in meths and names_cont(f, n.func.value)]
 
 
 def _selected_then_destroyed(sc: Scope, how: tuple[str, ...]) -> list[tuple[str, ast.Call]]:
@@ -740,16 +816,19 @@ def rule_stores(ctx: Ctx) -> None:
     cfg = ctx.cfg(dp)
     cls = ctx.prog.cls(f"{MOD}.DiskCache")
 
+    from ..effects import FS_WRITE
+
     def writes(s: ast.AST) -> bool:
+        """The statement writes a file itself (a `.dump(...)` / write-mode open) or calls a method that does (effect analysis)."""
         for part in header_parts(s):
             for c in ast.walk(part):
                 if not isinstance(c, ast.Call):
                     continue
-                if dotted(c.func) in ("cloudpickle.dump", "pickle.dump"):
+                if isinstance(c.func, ast.Attribute) and c.func.attr in ("dump", "write", "write_bytes"):
                     return True
-                h = _self_attr(c.func)
-                if h and h in cls.methods and any(isinstance(x, ast.Call) and dotted(x.func) in ("cloudpickle.dump", "pickle.dump") for x in ast.walk(cls.methods[h].node)):
-                    return True
+                for site in ctx.cg.sites.get(dp.qualname, []):
+                    if site.node is c and any(ctx.effects.has(callee.qualname, FS_WRITE) for callee in site.callees):
+                        return True
         return False
 
     w = set(cfg.nodes(writes))
